@@ -164,16 +164,16 @@ func (c *Client) listenTCPInternal(host string, port int) (net.Listener, error) 
 		Port: port,
 	}
 	addr := net.JoinHostPort(host, strconv.FormatInt(int64(port), 10))
-	ch := c.forwards.add("tcp", addr)
+	e := c.forwards.add("tcp", addr)
 
-	return &tcpListener{laddr, addr, c, ch}, nil
+	return &tcpListener{laddr, addr, c, e}, nil
 }
 
 // forwardList stores a mapping between remote
 // forward requests and the tcpListeners.
 type forwardList struct {
 	sync.Mutex
-	entries []forwardEntry
+	entries []*forwardEntry
 }
 
 // forwardEntry represents an established mapping of a laddr on a
@@ -182,6 +182,10 @@ type forwardEntry struct {
 	addr    string // host:port or socket path
 	network string // tcp or unix
 	c       chan forward
+	// closed is closed when the entry is removed from the list. c is
+	// never closed, so that forward can send on it without holding the
+	// list lock.
+	closed chan struct{}
 }
 
 // forward represents an incoming forwarded tcpip connection. The
@@ -192,16 +196,17 @@ type forward struct {
 	raddr net.Addr   // the raddr of the incoming connection
 }
 
-func (l *forwardList) add(n, addr string) chan forward {
+func (l *forwardList) add(n, addr string) *forwardEntry {
 	l.Lock()
 	defer l.Unlock()
-	f := forwardEntry{
+	f := &forwardEntry{
 		addr:    addr,
 		network: n,
 		c:       make(chan forward, 1),
+		closed:  make(chan struct{}),
 	}
 	l.entries = append(l.entries, f)
-	return f.c
+	return f
 }
 
 // See RFC 4254, section 7.2
@@ -277,55 +282,107 @@ func (l *forwardList) handleChannels(in <-chan NewChannel) {
 	}
 }
 
-// remove removes the forward entry, and the channel feeding its
-// listener.
-func (l *forwardList) remove(n, addr string) {
+// remove removes the forward entry e, and closes its listener.
+func (l *forwardList) remove(e *forwardEntry) {
 	l.Lock()
-	defer l.Unlock()
 	for i, f := range l.entries {
-		if n == f.network && addr == f.addr {
+		if f == e {
 			l.entries = append(l.entries[:i], l.entries[i+1:]...)
-			close(f.c)
-			return
+			close(f.closed)
+			break
 		}
 	}
+	l.Unlock()
+	e.rejectPending()
 }
 
 // closeAll closes and clears all forwards.
 func (l *forwardList) closeAll() {
 	l.Lock()
-	defer l.Unlock()
-	for _, f := range l.entries {
-		close(f.c)
-	}
+	entries := l.entries
 	l.entries = nil
+	for _, f := range entries {
+		close(f.closed)
+	}
+	l.Unlock()
+	for _, f := range entries {
+		f.rejectPending()
+	}
+}
+
+// rejectPending rejects the forwards that were queued for a closed
+// listener but never accepted.
+func (e *forwardEntry) rejectPending() {
+	for {
+		select {
+		case f := <-e.c:
+			f.newCh.Reject(ConnectionFailed, "listener closed")
+		default:
+			return
+		}
+	}
+}
+
+// accept returns the next forward queued for the listener, or io.EOF
+// once the listener is closed.
+func (e *forwardEntry) accept() (forward, error) {
+	select {
+	case <-e.closed:
+		return forward{}, io.EOF
+	default:
+	}
+	select {
+	case f := <-e.c:
+		return f, nil
+	case <-e.closed:
+		return forward{}, io.EOF
+	}
 }
 
 func (l *forwardList) forward(n, addr string, raddr net.Addr, ch NewChannel) bool {
+	var e *forwardEntry
 	l.Lock()
-	defer l.Unlock()
 	for _, f := range l.entries {
 		if n == f.network && addr == f.addr {
-			f.c <- forward{newCh: ch, raddr: raddr}
-			return true
+			e = f
+			break
 		}
 	}
-	return false
+	l.Unlock()
+	if e == nil {
+		return false
+	}
+	// Send without holding the lock: the listener may not be accepting,
+	// and that must not prevent it, or any other listener, from being
+	// closed.
+	select {
+	case e.c <- forward{newCh: ch, raddr: raddr}:
+		select {
+		case <-e.closed:
+			// The listener was closed concurrently; nobody will
+			// accept what has just been queued.
+			e.rejectPending()
+		default:
+		}
+		return true
+	case <-e.closed:
+		return false
+	}
 }
 
 type tcpListener struct {
 	laddr *net.TCPAddr
 	addr  string
 
-	conn *Client
-	in   <-chan forward
+	conn  *Client
+	entry *forwardEntry
 }
 
 // Accept waits for and returns the next connection to the listener.
 func (l *tcpListener) Accept() (net.Conn, error) {
-	s, ok := <-l.in
-	if !ok {
-		return nil, io.EOF
+	s, err := l.entry.accept()
+	if err != nil {
+		return nil, err
 	}
 	ch, incoming, err := s.newCh.Accept()
 	if err != nil {
@@ -357,7 +414,7 @@ func (l *tcpListener) Close() error {
 	}
 
 	// this also closes the listener.
-	l.conn.forwards.remove("tcp", l.addr)
+	l.conn.forwards.remove(l.entry)
 	ok, _, err := l.conn.SendRequest("cancel-tcpip-forward", true, Marshal(&m))
 	if err == nil && !ok {
 		err = errors.New("ssh: cancel-tcpip-forward failed")
